@@ -324,6 +324,68 @@ def r12_casts(toks, log, int_types=("usize", "isize", "i32", "u32", "i64", "u64"
         i += 1
     return toks
 
+def r25_param_patterns(toks, log):
+    """R25: a tuple pattern in a fn parameter `(i, j): T` becomes `p0_: T` plus `let (i, j) = p0_;` as the first
+    statement of the body (Verus accepts only identifier patterns there; this is Rust's own meaning of the pattern)"""
+    toks = list(toks)
+    i = 0
+    while i < len(toks):
+        t = toks[i]
+        if t.kind == "id" and t.text == "fn" and i + 1 < len(toks) and toks[i + 1].kind == "id":
+            j = i + 2
+            if P(toks[j], "<"):
+                d = 0
+                while True:
+                    if P(toks[j], "<"): d += 1
+                    elif P(toks[j], ">"):
+                        d -= 1
+                        if d == 0: j += 1; break
+                    j += 1
+            if not P(toks[j], "("):
+                i += 1; continue
+            c = match_close(toks, j)
+            # split params
+            params = []; cur = []; d = 0; ang = 0
+            for k in range(j + 1, c):
+                u = toks[k]
+                if u.kind == "punct" and u.text in OPEN: d += 1
+                elif u.kind == "punct" and u.text in CLOSE: d -= 1
+                elif P(u, "<"): ang += 1
+                elif P(u, ">"): ang -= 1
+                if d == 0 and ang == 0 and P(u, ","):
+                    params.append(cur); cur = []
+                else:
+                    cur.append((k, u))
+            if cur: params.append(cur)
+            lets = []
+            edits = []
+            for n_, prm in enumerate(params):
+                if prm and P(prm[0][1], "("):
+                    # pattern up to the matching ')' followed by ':'
+                    k0 = prm[0][0]
+                    kc = match_close(toks, k0)
+                    if kc + 1 < len(toks) and P(toks[kc + 1], ":"):
+                        name = "p%d_" % n_
+                        edits.append((k0, kc, name))
+                        lets.append((toks[k0:kc + 1], name))
+            if edits:
+                # body brace
+                try:
+                    bo, bc = body_range(toks, i, len(toks))
+                except Undecided:
+                    i = c; continue
+                ln = toks[bo].line
+                ins = []
+                for (pat, name) in lets:
+                    ins += [T("id", "let", ln)] + [T(u.kind, u.text, ln) for u in pat] + [T("punct", "=", ln), T("id", name, ln), T("punct", ";", ln)]
+                    log.append(("R25", ln, "tuple pattern parameter -> %s + let" % name))
+                toks[bo + 1:bo + 1] = ins
+                for (k0, kc, name) in sorted(edits, reverse=True):
+                    toks[k0:kc + 1] = [T("id", name, toks[k0].line)]
+            i = c
+        i += 1
+    return toks
+
 def named_return(toks, log, name="r"):
     """`fn f(..) -> T` becomes `fn f(..) -> (r: T)` so that `ensures` can name the result."""
     toks = list(toks)
@@ -540,6 +602,14 @@ def r16_assert_eq(toks, log):
             toks[i:c + 1] = new
             log.append(("R16", ln, "assert_eq -> assert(a == b), message dropped"))
             i += len(new); continue
+        if t.kind == "id" and t.text == "panic" and P(toks[i + 1], "!"):
+            o = i + 2; c = match_close(toks, o)
+            if c > o + 1:
+                ln = t.line
+                new = toks_of("panic!()", ln)
+                toks[i:c + 1] = new
+                log.append(("R16", ln, "panic message dropped (same panic condition)"))
+                i += len(new); continue
         if t.kind == "id" and t.text in ("assert", "debug_assert") and P(toks[i + 1], "!"):
             o = i + 2; c = match_close(toks, o)
             args = split_commas(toks[o + 1:c])
@@ -617,6 +687,7 @@ def apply_rewrites(toks, cfg, log):
     if cfg.get("casts", True):
         toks = r12_casts(toks, log)
     toks = r5_local_const(toks, log) if cfg.get("local_const", True) else toks
+    toks = r25_param_patterns(toks, log)
     toks = named_return(toks, log)
     tr = cfg.get("tracked")
     if tr:
